@@ -127,7 +127,7 @@ def run_mutant(m, extra_props=None):
             return res
         rc, out = sh("go test -count=1 ./... 2>&1 | tail -15 && (cd tests && go test -count=1 ./... 2>&1 | tail -5) && (cd fuzz && go test -count=1 ./... 2>&1 | tail -5)", wt)
         res["baseline_pass"] = "FAIL" not in out and "panic" not in out
-        if not res["baseline_pass"]:
+        if not res["baseline_pass"] and not os.environ.get("MUTANTS_FORCE"):
             res["status"] = "CAUGHT-BY-EXISTING-TESTS"
             res["log"] = out[-600:]
             return res
@@ -146,6 +146,8 @@ def run_mutant(m, extra_props=None):
         res["missed_by"] = [c["check"] for c in missed]
         res["detail"] = caught + missed
         res["status"] = "CAUGHT" if caught else ("SILENT-AS-INTENDED" if not expect else "MISSED")
+        if not res["baseline_pass"]:
+            res["status"] += " (also caught by the repository's own tests)"
         return res
     finally:
         sh("git -C /repo worktree remove --force %s; rm -rf %s" % (wt, wt), "/")
